@@ -9,6 +9,8 @@ package zap
 import (
 	"fmt"
 	"hash/crc32"
+	"runtime"
+	"runtime/debug"
 
 	"github.com/blevesearch/vellum"
 )
@@ -141,3 +143,13 @@ func vParam(name string, def int) int {
 
 // vAlwaysMatch returns vellum's match-everything automaton (a native library object under the engine).
 func vAlwaysMatch() vellum.Automaton { return &vellum.AlwaysMatch{} }
+
+// vPoolDeterministic makes the real sync.Pool behave like the model for a replay (one P, no GC).
+func vPoolDeterministic() {
+	runtime.GOMAXPROCS(1)
+	debug.SetGCPercent(-1)
+}
+
+// vShare marks everything reachable from root as shared (effect monitor on); natively a no-op.
+func vShare(root any) {}
+func vUnshare()       {}
